@@ -27,6 +27,7 @@ import Mamba.Lemmas.DistancePatonCount2
 import Mamba.Lemmas.DistancePatonIndep2
 import Mamba.Lemmas.DistanceGibbsBlock
 import Mamba.Lemmas.DistanceSpanCycle
+import Mamba.Lemmas.DistanceEvenMinimal
 /-!
 # C10 — property theorems
 
@@ -582,9 +583,11 @@ Proved separately below: `paton_cycles_sound` (every fundamental cycle is a simp
 `gibbs_Q_span` (`Q` = all non-empty XOR combinations), `gibbs_sets_even` (all of `Q ⊇ S` has even degrees).
 NOT proved: (a) totality of the last step `numberFound[len(V)]++`, which needs `len(V) ≤ n` for every set `V` kept
 by Gibbs' algorithm, i.e. that every such set is a single cycle (proved: `paton_cycles_span`, every cycle of the
-block is an XOR of fundamental cycles and lies in `Q`; missing lemmas: every edge of a non-empty even edge set lies on
-a simple cycle inside it, hence an even set through the new non-tree edge that contains no other element of `R` is a
-single cycle); (b) correctness: Gibbs' steps keep exactly
+block is an XOR of fundamental cycles and lies in `Q`; `even_set_edge_on_cycle`, `minimal_even_set_is_cycle`: every
+edge of an even edge set lies on a simple cycle inside it. Missing: the link to the array code of step 3 — an
+invariant of the swap-remove loop saying that every element of the original `R` contains an element of the current
+`R`, and the stage-wise version of `gibbs_Q_span` showing that the cycle through the new non-tree edge found inside a
+kept set `V` is itself an element of `R`); (b) correctness: Gibbs' steps keep exactly
 the elements of the cycle space that are single cycles, so that the counts by length are `numCycles g l`
 (`numCycles_spec`). Both are validated per input (`F=ok`, for `m - n ≤ 12`; Go vs reference for `m - n ≤ 14`). -/
 theorem numberOfCycles_phases_total_partial (g : G) (hsym : ∀ u v, g.adj u v = g.adj v u) (bicom : List Nat)
@@ -689,6 +692,31 @@ theorem paton_cycles_span (a : G) (hsym : ∀ u v, a.adj u v = a.adj v u) (hirr 
     Model.sortInts (cycCodes c) ∈ gs.Q ∧
       ∃ I, I ≠ [] ∧ I.Sublist st.fund ∧ IsXorOf I (Model.sortInts (cycCodes c)) :=
   cycles_in_Q a hsym hirr hn hconn fuel st hres f0 fs hfund gs hg c hc
+
+/-- Cycle decomposition, the graph lemma behind Gibbs' step 3: in an edge set `t` (a duplicate-free list of edge
+codes on the vertices `0..n-1`) in which every vertex has even degree (`EvenSet`), every edge `p – q` of `t` lies on a
+simple cycle contained in `t`: there is a vertex sequence `c` from `p` to `q` with at least three distinct vertices
+all of whose cycle codes (`cycCodes c`, the closing edge `p – q` included) lie in `t`. Proof: delete the edge; `q` now
+has odd degree, and by the handshake lemma (`handshake`: inside the set of vertices reachable from `q` the degrees sum
+to an even number) `p` — the only other vertex of odd degree — is still reachable from `q` (`even_reach`); a shortest
+walk from `q` to `p` is a simple path (`IsDistIn.simplePath`) with at least two edges, and the deleted edge closes it. -/
+theorem even_set_edge_on_cycle (n : Nat) (t : List Nat) (hnd : t.Nodup) (hev : EvenSet n t) (p q : Nat)
+    (hp : p < n) (hq : q < n) (hpq : p ≠ q) (hex : Model.edgeCode p q ∈ t) :
+    ∃ c : List Nat, 3 ≤ c.length ∧ c.Nodup ∧ (∀ x ∈ c, x < n) ∧ c.headD 0 = p ∧ c.getLastD 0 = q ∧
+      (∀ z ∈ cycCodes c, z ∈ t) ∧ Model.edgeCode p q ∈ cycCodes c :=
+  even_edge_on_cycle hnd hev hp hq hpq hex
+
+/-- A minimal non-empty even edge set is a single simple cycle: if `t` is non-empty, consists of codes of pairs of
+distinct vertices `< n`, has even degrees, and every non-empty even subset of `t` is all of `t`, then `t` is (a
+permutation of) the list of the edge codes of a simple cycle of the graph `codeG n t` of its own edges. This is the
+fact Gibbs' step 3 relies on (a set that contains no other element of `R` is a single cycle); the link to the
+array code of step 3 — and with it `gibbs_kept_is_cycle`, `len(V) ≤ n`, the full totality and the counts — is NOT
+proved. -/
+theorem minimal_even_set_is_cycle (n : Nat) (t : List Nat) (hnd : t.Nodup) (hne : t ≠ [])
+    (hcodes : ∀ z ∈ t, ∃ p q, p < n ∧ q < n ∧ p ≠ q ∧ z = Model.edgeCode p q) (hev : EvenSet n t)
+    (hmin : ∀ u : List Nat, u.Nodup → u ≠ [] → (∀ z ∈ u, z ∈ t) → EvenSet n u → ∀ z ∈ t, z ∈ u) :
+    ∃ c, IsCycleSeq (codeG n t) c ∧ t.Perm (cycCodes c) :=
+  minimal_even_is_cycle hnd hne hcodes hev hmin
 
 /-! ## Invariance under relabelling
 
